@@ -518,4 +518,58 @@ theorem hgcd2Loop_post : ∀ (f : Nat) (pt : HPt) (a b : Nat) (m : M1),
 
 end loop
 
+theorem two_limb_facts (ah al bh bl : Nat) (hal : al < B) (hbl : bl < B) :
+    (ah * B + al) / B = ah ∧ (bh * B + bl) / B = bh ∧
+    (ah > bh ∨ (ah = bh ∧ al > bl) ↔ bh * B + bl < ah * B + al) ∧
+    (2 ≤ ah → 2 * B ≤ ah * B + al) := by
+  rw [B_eq] at *
+  refine ⟨by omega, by omega, by omega, by omega⟩
+
+/-- mpn_hgcd2 on limbs: a returned matrix satisfies `Post` for the two-limb values. -/
+theorem hgcd2_post (ah al bh bl : Nat) (m : M1) (hah : ah < B) (hal : al < B) (hbh : bh < B) (hbl : bl < B)
+    (h : hgcd2 ah al bh bl = some m) : Post (ah * B + al) (bh * B + bl) m := by
+  have hA : ah * B + al < B * B := by
+    have : (ah + 1) * B ≤ B * B := Nat.mul_le_mul_right _ hah
+    rw [Nat.add_mul] at this; omega
+  have hB : bh * B + bl < B * B := by
+    have : (bh + 1) * B ≤ B * B := Nat.mul_le_mul_right _ hbh
+    rw [Nat.add_mul] at this; omega
+  obtain ⟨dA, dB, hcmp, h2A⟩ := two_limb_facts ah al bh bl hal hbl
+  obtain ⟨_, _, _, h2B⟩ := two_limb_facts bh bl ah al hbl hal
+  unfold hgcd2 at h
+  by_cases e0 : ah < 2 ∨ bh < 2
+  · rw [if_pos e0] at h; exact absurd h (by simp)
+  rw [if_neg e0] at h
+  dsimp only at h
+  have h2A := h2A (by omega)
+  have h2B := h2B (by omega)
+  generalize ah * B + al = a at *
+  generalize bh * B + bl = b at *
+  by_cases e1 : ah > bh ∨ (ah = bh ∧ al > bl)
+  · rw [if_pos e1] at h
+    have hlt : b < a := hcmp.mp e1
+    by_cases e2 : (a - b) / B < 2
+    · rw [if_pos e2] at h; exact absurd h (by simp)
+    rw [if_neg e2] at h
+    have hd : DInv a b (a - b) b ⟨1, 1, 0, 1⟩ :=
+      ⟨⟨by simp, by simp only; omega, by simp⟩, by rw [B_eq] at *; omega, h2B, Or.inl (by simp)⟩
+    simp only [Option.some.injEq] at h
+    rw [← h, ← dB]
+    split
+    · exact hgcd2Loop_post hA hB _ _ _ _ _ ⟨hd, by omega⟩
+    · exact hgcd2Loop_post hA hB _ _ _ _ _ ⟨hd, by omega⟩
+  · rw [if_neg e1] at h
+    have hlt : a ≤ b := by
+      by_contra hc; exact e1 (hcmp.mpr (by omega))
+    by_cases e2 : (b - a) / B < 2
+    · rw [if_pos e2] at h; exact absurd h (by simp)
+    rw [if_neg e2] at h
+    have hd : DInv a b a (b - a) ⟨1, 0, 1, 1⟩ :=
+      ⟨⟨by simp, by simp, by simp only; omega⟩, h2A, by rw [B_eq] at *; omega, Or.inr (by simp)⟩
+    simp only [Option.some.injEq] at h
+    rw [← h, ← dA]
+    split
+    · exact hgcd2Loop_post hA hB _ _ _ _ _ ⟨hd, by omega⟩
+    · exact hgcd2Loop_post hA hB _ _ _ _ _ ⟨hd, by omega⟩
+
 end Mpir.Gcd
